@@ -18,14 +18,22 @@ def main():
       continue
     meta = json.load(open(os.path.join(d, 'meta.json')))
     prop = meta['property']
+    if meta.get('neutralised_by'):
+      print('%-55s %s neutral   (equivalent on the repaired tree: %s)' % (name, prop, ', '.join(meta['neutralised_by'])), flush=True)
+      continue
+    props = meta.get('caught_by') or [prop]
     t0 = time.time()
     patch = os.path.join(d, 'patch_rebased.diff')   # same change re-done on top of a later fix of the same lines
     if not os.path.exists(patch):
       patch = os.path.join(d, 'patch.diff')
-    r = subprocess.run([os.path.join(ROOT, 'tools', 'mut.py'), prop, '--patch', patch], cwd=ROOT,
-                       stdout=subprocess.PIPE, stderr=subprocess.STDOUT, text=True)
-    last = r.stdout.strip().splitlines()[-1] if r.stdout.strip() else ''
-    caught = 'VIOLATION property=%s' % prop in r.stdout
+    caught, last = False, ''
+    for prop in props:      # the check(s) recorded as catching it (default: the property's own)
+      r = subprocess.run([os.path.join(ROOT, 'tools', 'mut.py'), prop, '--patch', patch], cwd=ROOT,
+                         stdout=subprocess.PIPE, stderr=subprocess.STDOUT, text=True)
+      last = r.stdout.strip().splitlines()[-1] if r.stdout.strip() else ''
+      caught = 'VIOLATION property=%s' % prop in r.stdout
+      if caught:
+        break
     print('%-55s %s %-7s %4.0fs  %s' % (name, prop, 'caught' if caught else 'MISSED', time.time() - t0, last[:90]), flush=True)
     if not caught:
       missed.append(name)
